@@ -362,9 +362,12 @@ def shaped(rng, alphabet="abc"):
     reasoning of the optimiser and the give-back of repeats matter"""
     a = rng.choice(alphabet)
     others = [c for c in alphabet if c != a] or [a]
+    b0 = rng.choice(others)
     x = rng.choice([("chr", a), ("cls", False, [("c", a), ("c", rng.choice(alphabet))], None), ("dot",),
-                    ("cls", False, [("c", a)], None)])
-    rep = ("q", x, *rng.choice([(0, None), (1, None), (0, 2), (1, 3), (2, None), (0, 1)]), rng.random() < 0.75)
+                    ("cls", False, [("c", a)], None), ("seq", [("chr", a), ("chr", b0)]),
+                    ("seq", [("chr", a), ("chr", b0), ("chr", a)]), ("cls", False, [("r", min(a, b0), max(a, b0))], None)])
+    rep = ("q", x, *rng.choice([(0, None), (1, None), (0, 2), (1, 3), (2, None), (0, 1), (2, 3), (2, 2), (3, None), (1, 2)]),
+           rng.random() < 0.75)
     def word(k):
         return ("seq", [("chr", rng.choice(others)) for _ in range(k)]) if k != 1 else ("chr", rng.choice(others))
     mid_body = rng.choice([("alt", [word(1), word(2)]), ("alt", [word(2), word(1)]), word(1), word(2),
@@ -378,3 +381,22 @@ def shaped(rng, alphabet="abc"):
     if rng.random() < 0.3:
         parts.insert(0, rng.choice([("bol",), ("chr", rng.choice(alphabet)), ("grp", ("chr", rng.choice(alphabet)))]))
     return ("seq", parts)
+
+
+def fixedrep(rng, alphabet="abc"):
+    """(?:W){n,m} T with W a word of 2-3 characters and T beginning like W: the fixed-length greedy
+    repeat that must give repetitions back, with inputs made of copies of W"""
+    w = "".join(rng.choice(alphabet) for _ in range(rng.randint(2, 3)))
+    mn, mx = rng.choice([(2, 3), (2, 2), (2, None), (1, 3), (3, 4), (0, 2), (2, 4)])
+    body = ("seq", [("chr", c) for c in w])
+    tail = rng.choice([("chr", w[0]), ("seq", [("chr", w[0]), ("chr", w[1])]), ("seq", [("chr", w[0]), ("chr", rng.choice(alphabet))]),
+                       ("cls", False, [("c", w[0]), ("c", rng.choice(alphabet))], None)])
+    ast = ("seq", [("q", body, mn, mx, rng.random() < 0.8), tail])
+    if rng.random() < 0.3:
+        ast = ("seq", [rng.choice([("bol",), ("chr", rng.choice(alphabet))])] + ast[1])
+    inputs = []
+    for _ in range(5):
+        k = rng.randint(0, 4)
+        junk = "".join(rng.choice(alphabet + "x") for _ in range(rng.randint(0, 3)))
+        inputs.append(rng.choice(["", "x", w[0]]) + w * k + junk + rng.choice(["", w[0], w, w[0] + w[1]]))
+    return ast, inputs
